@@ -234,7 +234,7 @@ Fixpoint has_ioerr (t : term) : bool :=
               configuration, never evicted) into which the final set was inserted in sorted order
      shape    the final trie as stored by the implementation (walked through cache.getNode)
      hashing  1: digests are recomputed with the Gallina SHA-512/256 and compared *)
-Definition check (t : term) : term :=
+Definition check_seq (t : term) : term :=
   match t with
   | TL [TS "seq"; TL _; TL ops; TL obs; TL (TS "set" :: setl); TB root; TB fresh; shape; TZ hf; TZ dropped] =>
       match map_opt op_of_term ops, map_opt as_bytes setl with
